@@ -133,6 +133,16 @@ def run_jobs(jobs: list[Job], known: dict[str, list[str]], workdir: str) -> None
                 }
             j.result["wall_total_s"] = round(time.time() - j.t0, 2)
             r = j.result
+            if (os.environ.get("VERIF_FAILFAST") and os.environ.get("VERIF_REPO") and r.get("status") == "REFUTED"
+                    and "counterexample" in r):
+                # trials against a seeded change only (never set by the registered commands): one refuted
+                # condition is enough, the remaining conditions are not run
+                pending.clear()
+                for k in running:
+                    if k.proc is not None:
+                        k.proc.kill()
+                        k.proc.wait()
+                running.clear()
             print(
                 f"  [{r.get('status')}] {j.describe()} paths={r.get('iterations')} "
                 f"confirmed={r.get('confirmed_paths')} exhausted={r.get('exhausted')} "
